@@ -8,6 +8,7 @@ From MakoV Require Import Lib.Str.
 Open Scope N_scope.
 
 Definition n_context : N := 0.      (* the name context is never looked up *)
+Definition n_loop : N := 18.        (* the name loop (the harness numbers names from a fixed table) *)
 
 Inductive tnode :=
 | TCheck (u d : list N)                           (* expression, control line, include, text tag: reads u, binds d *)
@@ -16,7 +17,8 @@ Inductive tnode :=
 | TDef (root : bool) (name : N) (args sig_u : list N) (body : list tnode)   (* root: written at the top level of the template *)
 | TBlock (named : bool) (name : N) (args sig_u : list N) (body : list tnode)     (* an anonymous block has a generated function name *)
 | TCall (sig_u args : list N) (body : list tnode)
-| TNamespace (body : list tnode).
+| TNamespace (body : list tnode)
+| TFor (u d : list N) (loop_inside : bool).      (* a for control line; loop_inside: LoopVariable finds "loop" in it or below it (enable_loop on) *)
 
 Record ids := {
   declared : list N; undeclared : list N; locally_declared : list N; locally_assigned : list N;
@@ -69,6 +71,9 @@ Fixpoint visit (fuel : nat) (own : bool) (s : ids) (n : tnode) : ids :=
           fold_left (visit f false) body (args_ s2 a)       (* a block's content belongs to the scope the block is met in *)
       | TCall sig_u _ _ => reads s sig_u
       | TNamespace _ => s
+      | TFor u d inside =>
+          (* (fix c3c2d1f) the scope that holds a loop whose context is used, also only from a nested scope, sets up "loop" itself *)
+          check_declared s (if inside then n_loop :: u else u) d
       end
   end.
 Definition visit_child (fuel : nat) (s : ids) (n : tnode) : ids := visit fuel false s n.
